@@ -5,8 +5,10 @@ package main
 // order are loaded with the real repo.LoadIndexFile; IndexFile.Get,
 // registry.GetTagMatchingVersionOrConstraint and resolver.Resolve (through the hook
 // downloader.VerifResolve) are run on them.  Observations go to Misc/Semver.v and
-// Misc/Index.v through Run/RunC18.v; constraint validity/satisfaction is passed as tables
-// computed by the real Masterminds/semver library.  (Generators and corpus: c18_gen.go.)
+// Misc/Index.v through Run/RunC18.v.  Constraint validity/satisfaction as computed by the real
+// Masterminds/semver library is printed (tables for the queries, bit strings for the generated
+// constraint/version pairs) and compared in Coq with the model Misc/Constraint.v, which is also
+// what the query models are evaluated with.  (Generators and corpus: c18_gen.go, c18_cgen.go.)
 
 import (
 	"encoding/json"
@@ -170,7 +172,11 @@ func (*c18) Rule() string {
 		"short forms, zero-padded segments, invalid strings, null entries, entries without metadata/name/URLs, bad names/types, " +
 		"duplicated and equal-precedence versions) x Get queries (empty version, exact strings, same-precedence spellings, " +
 		"^ ~ ranges wildcards hyphen ranges || with and without pre-release parts, invalid constraints) x tag lists x " +
-		"dependency lists, plus pairs of version strings for parse/compare; non-trivial = the index loaded, some chart kept " +
+		"dependency lists, plus pairs of version strings for parse/compare, plus 8 (constraint, 6-10 versions) pairs per case for " +
+		"NewConstraint/Check vs the model (structured: all 12 operators, x/X/* wildcards, partial versions, hyphen ranges, pre-releases on " +
+		"either side, white-space and separator variants, AND/OR combinations; 12% mutated strings, 10% from a list of 149 quirk strings; " +
+		"versions near the constraint's numbers; the same generator feeds 25% of the Get/tag/Resolve constraints; shape distribution under " +
+		"extra.constraint_language); non-trivial = the index loaded, some chart kept " +
 		">= 2 entries and at least one Get returned an entry; distinct = hash of (case, observation)"
 }
 
